@@ -71,8 +71,10 @@ def classify(ctx, prog, I, sites, prop, label, extra_ok=None):
                 ctx.count('invariant_table_sites')
                 continue
             ctx.ob('[%s] %s in %s discharged' % (label, desc, fn), False, sample=True)
-            ctx.finding('PANIC-SITE', fn, _inst(kind, I, key, prog), '%s can fail: %s%s' % (desc, bad.get(key) or 'reachable under %d path conditions' % len(pan.get(key, ())),
-                                                                                          (' [first met in: %s]' % getattr(I, 'first_seen_in', {}).get(key)) if getattr(I, 'first_seen_in', {}).get(key) else ''), at=at)
+            msg = '%s can fail: %s%s' % (desc, bad.get(key) or 'reachable under %d path conditions' % len(pan.get(key, ())),
+                                         (' [first met in: %s]' % getattr(I, 'first_seen_in', {}).get(key)) if getattr(I, 'first_seen_in', {}).get(key) else '')
+            for efn, inst in attributed(I, key, prog):
+                ctx.finding('PANIC-SITE', efn, inst, msg + ('' if efn == fn else ' [arithmetic located in %s]' % fn), at=at)
         elif key in visited_ok:
             n_dis += 1
             ctx.ob('[%s] %s in %s (%s) discharged' % (label, desc, fn, at.split('/')[-1]), True, sample=(n_dis % 9 == 1))
@@ -109,12 +111,32 @@ def overflow_type(prog, fn, at):
     return '/'.join(sorted(out)) or '?'
 
 
+ENTRY_OF_KIND = {'Pass': 'engine::GameState::pass', 'Move': 'engine::GameState::move_piece'}
+
+
+def attributed(I, key, prog=None):
+    """[(function, instance)] under which a failing site is reported.  An arithmetic overflow in the engine that was met while an
+    action was being applied is identified by the *input* that reaches it - which kind of action (a pass / a step), and whose turn
+    and which step (turn_end_scope) - not by the helper the arithmetic happens to live in: it is reported under the engine
+    function that applies that kind of action.  (The known finding K1 is "Silver passes / makes a fourth step at the maximal move
+    number"; moving `move_number + 1` into a helper does not make it a different finding, meeting it in other situations does.)"""
+    fn, at, kind = key
+    if kind != 'Overflow' or prog is None:
+        return [(fn, kind)]
+    modes = getattr(I, 'assert_modes', {}).get(key)
+    if fn.endswith(tuple(ENTRY_OF_KIND.values())):
+        return [(fn, 'Overflow(%s)%s' % (overflow_type(prog, fn, at), turn_end_scope(I, key)))]
+    if not modes or not fn.startswith('engine::'):
+        return [(fn, kind)]
+    out = []
+    for k in sorted({m[2] for m in modes}):
+        if k in ENTRY_OF_KIND:
+            out.append((ENTRY_OF_KIND[k], 'Overflow(%s)%s' % (overflow_type(prog, fn, at), turn_end_scope(I, key, k))))
+    return out or [(fn, kind)]
+
+
 def _inst(kind, I, key, prog=None):
-    if kind == 'Overflow':
-        if key[0].endswith(('GameState::pass', 'GameState::move_piece')) and prog is not None:
-            return 'Overflow(%s)%s' % (overflow_type(prog, key[0], key[1]), turn_end_scope(I, key))
-        return 'Overflow'
-    return kind
+    return attributed(I, key, prog)[0][1]
 
 
 def report_side_conditions(ctx, I, prop, fn_filter=None):
@@ -144,7 +166,7 @@ def tagged(I, tag, thunk):
             I.asserts_bad.setdefault(k, v)
 
 
-def turn_end_scope(I, key):
+def turn_end_scope(I, key, only_kind=None):
     """'' when the failing assert is met only while Silver's turn ends (Silver passes or makes a fourth step) - the scope of
     the known finding K1 - otherwise a qualifier naming the other situations."""
     modes = getattr(I, 'assert_modes', {}).get(key)
@@ -152,6 +174,8 @@ def turn_end_scope(I, key):
         return ''
     other = set()
     for (gold, step, kind) in modes:
+        if only_kind is not None and kind != only_kind:
+            continue
         ends = kind == 'Pass' or step == 3
         if gold or not ends:
             other.add('%s-%s' % ('gold' if gold else 'silver', 'end' if ends else 'mid'))
